@@ -169,3 +169,8 @@ def GroupingWithConditionalMember(payload):
         if nd['t'] == 'grp' and any(m not in perm for m in nd['members']):
             return True
     return False
+
+
+@trigger
+def NestedTimeLimiterCall(payload):
+    return (payload.get('rec') or {}).get('kind') == 'nested'
